@@ -176,6 +176,10 @@ pub struct E2eCase {
     /// is a bound local address like any other
     #[serde(default)]
     pub wildcard: (bool, bool),
+    /// no per-attempt connect timeout configured (happy eyeballs stays enabled): sorting must not
+    /// depend on it
+    #[serde(default)]
+    pub no_connect_timeout: bool,
 }
 
 /// candidate loopback addresses: three IPv4, one IPv6, two IPv4-mapped IPv6
@@ -265,7 +269,7 @@ impl Engine for E2eEngine {
             let mut cfg = TcpTransportConfig::default();
             cfg.happy_eyeballs_timeout = Some(std::time::Duration::from_secs(4));
             cfg.happy_eyeballs_concurrency = Some(1);
-            cfg.connect_timeout = Some(std::time::Duration::from_secs(2));
+            cfg.connect_timeout = if case.no_connect_timeout { None } else { Some(std::time::Duration::from_secs(2)) };
             cfg.local_address_ipv4 = case.bound.0.then_some(if case.wildcard.0 { Ipv4Addr::UNSPECIFIED } else { Ipv4Addr::LOCALHOST });
             cfg.local_address_ipv6 = case.bound.1.then_some(if case.wildcard.1 { Ipv6Addr::UNSPECIFIED } else { Ipv6Addr::LOCALHOST });
             let transport: TcpTransport<ListResolver, TcpStream> =
@@ -345,6 +349,7 @@ pub fn e2e_strategy() -> impl proptest::strategy::Strategy<Value = E2eCase> {
         proptest::collection::vec(any::<bool>(), 6),
         (any::<bool>(), any::<bool>()),
         (any::<bool>(), any::<bool>()),
+        any::<bool>(),
     )
-        .prop_map(|(addrs, live, bound, wildcard)| E2eCase { addrs, live, bound, wildcard })
+        .prop_map(|(addrs, live, bound, wildcard, no_connect_timeout)| E2eCase { addrs, live, bound, wildcard, no_connect_timeout })
 }
